@@ -73,6 +73,22 @@ class LoaderTable:
         localdefs = {n.name: n for n in fn.body if isinstance(n, ast.FunctionDef)}
         self.localdefs = localdefs
         self.moduledefs = {n.name: n for n in self.src.tree(CAT).body if isinstance(n, ast.FunctionDef)}
+        # literal tables of the setup function (name -> value), bound once: a loader that looks a string up in one of them reads a constant
+        self.consts = {}
+        nstores = {}
+        for n in ast.walk(fn):
+            if isinstance(n, ast.Name) and isinstance(n.ctx, ast.Store):
+                nstores[n.id] = nstores.get(n.id, 0) + 1
+        for s in fn.body:
+            if isinstance(s, ast.Assign) and len(s.targets) == 1 and isinstance(s.targets[0], ast.Name) and nstores.get(s.targets[0].id) == 1 \
+                    and isinstance(s.value, (ast.Dict, ast.Tuple, ast.List, ast.Constant)):
+                try:
+                    val = ast.literal_eval(s.value)
+                except (ValueError, SyntaxError):
+                    continue
+                if isinstance(val, str) or (isinstance(val, (tuple, list)) and all(isinstance(x, str) for x in val)) or \
+                        (isinstance(val, dict) and all(isinstance(k, str) and isinstance(v, str) for k, v in val.items())):
+                    self.consts[s.targets[0].id] = _ConstTable(val) if isinstance(val, dict) else (tuple(val) if isinstance(val, list) else val)
         pat = None
         for s in fn.body:
             if isinstance(s, ast.If) and unparse(s.test) == 'passthrough':
@@ -131,6 +147,16 @@ class LoaderTable:
                     impure=ev.impure, promo=ev.promo)
 
 
+class _ConstTable(dict):
+    """A literal str -> str dict of the setup function."""
+
+
+class _LocalHelper:
+    """A function defined inside a loader body (closure over the loader's parameters and locals)."""
+    def __init__(self, fdef):
+        self.fdef = fdef
+
+
 class _LoaderEval:
     def __init__(self, table, name, match, stack):
         self.table, self.name, self.m, self.stack = table, name, match, stack
@@ -159,7 +185,7 @@ class _LoaderEval:
             return self.origin(n.value)
         return None
 
-    def inline(self, fdef, call):
+    def inline(self, fdef, call, closure=False):
         a = fdef.args
         if a.vararg or a.kwarg or a.kwonlyargs or self.depth >= 3:
             return None
@@ -186,9 +212,16 @@ class _LoaderEval:
         if set(vals) != set(params):
             return None
         saved = (self.env, self.alias, self.pm, self.praw, self.phalos)
-        # the helper is defined outside the loader: it sees its own parameters only
-        self.env, self.alias = vals, al
-        self.pm = self.praw = self.phalos = None
+        if closure:
+            # a helper defined inside the loader body: it sees the loader's parameters and the locals bound so far
+            self.env, self.alias = dict(self.env, **vals), dict(self.alias, **al)
+            for p_ in params:
+                if p_ not in al:
+                    self.alias.pop(p_, None)
+        else:
+            # the helper is defined outside the loader: it sees its own parameters only
+            self.env, self.alias = vals, al
+            self.pm = self.praw = self.phalos = None
         self.depth += 1
         try:
             r = self.run_body(fdef.body)
@@ -259,6 +292,10 @@ class _LoaderEval:
     def stmt(self, s, maybe=False):
         if isinstance(s, ast.Return):
             return (self.ev(s.value),)
+        if isinstance(s, ast.Assign) and isinstance(s.value, ast.Lambda) and len(s.targets) == 1 and isinstance(s.targets[0], ast.Name):
+            lam = s.value
+            self.env[s.targets[0].id] = _LocalHelper(ast.FunctionDef(name=s.targets[0].id, args=lam.args, body=[ast.Return(value=lam.body)], decorator_list=[]))
+            return None
         if isinstance(s, ast.Assign):
             v = self.ev(s.value)
             t = s.targets[0]
@@ -309,6 +346,8 @@ class _LoaderEval:
             return None
         if isinstance(s, ast.Expr):
             self.ev(s.value)
+        if isinstance(s, ast.FunctionDef) and not s.decorator_list:
+            self.env[s.name] = _LocalHelper(s)
         return None
 
     def ev(self, n):
@@ -319,6 +358,8 @@ class _LoaderEval:
         if isinstance(n, ast.Name):
             if n.id in self.env:
                 return self.env[n.id]
+            if n.id in self.table.consts:
+                return self.table.consts[n.id]
             if n.id in self.table.units:
                 self.frees.add(n.id)
                 return Poly.sym(self.table.units[n.id])
@@ -330,6 +371,9 @@ class _LoaderEval:
             self.frees.add(n.id)
             return Opq(n.id)
         if isinstance(n, ast.Dict):
+            if n.keys and all(isinstance(k, ast.Constant) and isinstance(k.value, str) for k in n.keys) \
+                    and all(isinstance(v, ast.Constant) and isinstance(v.value, str) for v in n.values):
+                return _ConstTable({k.value: v.value for k, v in zip(n.keys, n.values)})
             return {}
         if isinstance(n, ast.Subscript):
             base = n.value
@@ -363,7 +407,13 @@ class _LoaderEval:
                     v = v.get(k, (Opq('missing'), 'maybe'))[0]
                 return _as_col(v, k)
             v = self.ev(base)
-            self.ev(n.slice) if not isinstance(n.slice, ast.Slice) else None
+            k = self.ev(n.slice) if not isinstance(n.slice, ast.Slice) else None
+            if isinstance(v, _ConstTable):
+                if isinstance(k, str):
+                    if k not in v:
+                        raise AnalysisError(f'loader of {self.name} looks up {k!r} in a table that lacks it')
+                    return v[k]
+                return Opq('table?')
             return v if isinstance(v, (Poly, Opq, Sqrt)) else Opq('sub')
         if isinstance(n, ast.Slice):
             return Opq('slice')
@@ -419,6 +469,10 @@ class _LoaderEval:
             a, b = self.ev(n.left), self.ev(n.comparators[0])
             if isinstance(n.ops[0], ast.Eq) and isinstance(a, str) and isinstance(b, str):
                 return a == b
+            if isinstance(n.ops[0], ast.NotEq) and isinstance(a, str) and isinstance(b, str):
+                return a != b
+            if isinstance(n.ops[0], (ast.In, ast.NotIn)) and isinstance(a, str) and isinstance(b, (tuple, _ConstTable)) and all(isinstance(x, str) for x in b):
+                return (a in b) == isinstance(n.ops[0], ast.In)
             if isinstance(n.ops[0], ast.In) and isinstance(a, str) and isinstance(b, Opq) and b.tag == 'colnames':
                 return True if a == self.name else MAYBE
             return MAYBE
@@ -455,6 +509,13 @@ class _LoaderEval:
                 a = self.ev(n.args[0])
                 self.frees.add('_unpack_euler16')
                 return tuple(Opq(f'euler16.{w}({_s(a)})') for w in ('minor', 'middle', 'major'))
+            if isinstance(n.func, ast.Name) and isinstance(self.env.get(n.func.id), _LocalHelper):
+                if any(p_ in (self.pm, self.praw, self.phalos) for p_ in [x.arg for x in self.env[n.func.id].fdef.args.args]):
+                    r = None            # a parameter shadowing m / raw / halos: not modelled
+                else:
+                    r = self.inline(self.env[n.func.id].fdef, n, closure=True)
+                if r is not None and r[0] is not None:
+                    return r[0]
             fdef = None
             if isinstance(n.func, ast.Name) and n.func.id not in self.env:
                 fdef = self.table.localdefs.get(n.func.id) or self.table.moduledefs.get(n.func.id)
